@@ -22,6 +22,7 @@ func batchBodies() [][]Op {
 		{p("a", "S"), p("a", "S")},
 		{p("a", "L"), p("b", "L"), d("a")},
 		{p("a", "S"), p("a", "H"), p("b", "S"), p("b", "H")}, // restaging with larger values: the size estimate must grow
+		{p("a", "S"), p("a", "G"), p("b", "S"), p("b", "G")}, // ... where each restage alone still fits
 	}
 }
 
